@@ -118,12 +118,66 @@ class PyExec:
             o.append("True" if self.w.stacks[int(t[1])].ecu._is_message_acceptable(int(t[2])) else "False")
         elif op == 'ecu.dump':
             o.append(self.dump_core(int(t[1])))
+        elif op == 'd21.new':
+            self.d21_new(int(t[1]), None if t[2] == 'n' else int(t[2]), int(t[3]), parse_list(t[4]))
+        elif op == 'd21.accept':
+            self.d21[int(t[1])]['acc'] = set(parse_list(t[2]))
+        elif op == 'd21.send':
+            d = self.d21[int(t[1])]
+            r = d['dll'].send_pgn(int(t[2]), int(t[3]), int(t[4]), int(t[5]), int(t[6]), parse_list(t[7]), 0, 3)
+            o.append(f"ret {r}")
+        elif op == 'd21.rx':
+            d = self.d21[int(t[1])]
+            data = parse_list(t[3])
+            d['dll'].notify(int(t[2]), bytearray(data) if all(x < 256 for x in data) else data, 0)
+        elif op == 'd21.tick':
+            d = self.d21[int(t[1])]
+            nw = d['dll'].async_job_thread(self.w.clock.time())
+            o.append(f"wakeup {sim.us(nw) - self.w.now}")
+        elif op == 'd21.dump':
+            o.append(self.d21_dump(int(t[1])))
         elif op == 'dm1.send':
             o.append(self.dm1_send(int(t[1]), parse_list(t[2]), parse_list(t[3])))
         elif op == 'dm1.parse':
             o.append(self.dm1_parse(parse_list(t[1])))
         else:
             raise ValueError(f"unknown op {op}")
+
+    def d21_new(self, maxcmdt, cmdt, bam, acc):
+        if not hasattr(self, 'd21'):
+            self.d21 = []
+        ex = self
+        d = dict(acc=set(acc))
+
+        class FakeCa:
+            _device_address_preferred = None
+
+            def message_acceptable(self, dest):
+                return dest == 255 or dest in d['acc']
+
+            def _process_addressclaim(self, mid, data, ts):
+                ex.out.append(f"claim {mid.source_address} {fmt_list(data)}")
+
+            def _process_request(self, mid, dest, data, ts):
+                ex.out.append(f"request {mid.source_address} {dest} {fmt_list(data)}")
+        J = sys.modules['j1939.j1939_21'].J1939_21
+        dll = J(lambda cid, ext, data, fd_format=False: ex.out.append(f"tx {cid} {fmt_list(data)}"),
+                lambda: ex.out.append("wake"),
+                lambda prio, pgn, sa, dest, ts, data: ex.out.append(f"notify {prio} {pgn} {sa} {dest} {fmt_list(data)}"),
+                maxcmdt, None if cmdt is None else sim.VT(cmdt), sim.VT(bam), lambda dest: False)
+        dll.add_ca(FakeCa())
+        d['dll'] = dll
+        self.d21.append(d)
+
+    def d21_dump(self, i):
+        dll = self.d21[i]['dll']
+        r = ",".join(f"{k}:{b['pgn']}:{b['message_size']}:{b['num_packages']}:{b['next_packet']}:{b['max_cmdt_packages']}:"
+                     f"{b.get('num_packages_max_rec', '-')}:{sim.us(b['deadline'])}:{b['src_address']}:{b['dest_address']}:{fmt_list(b['data'])}"
+                     for k, b in dll._rcv_buffer.items())
+        t = ",".join(f"{k}:{b['pgn']}:{b['priority']}:{b['message_size']}:{b['num_packages']}:{b['state']}:{sim.us(b['deadline'])}:"
+                     f"{b['src_address']}:{b['dest_address']}:{b['next_packet_to_send']}:{b.get('next_wait_on_cts', '-')}:{fmt_list(b['data'])}"
+                     for k, b in dll._snd_buffer.items())
+        return f"rcv {r} | snd {t}"
 
     KEYS = ['pl', 'awl', 'rsl', 'mil']
 
